@@ -223,10 +223,9 @@ def initOf (kind : String) (args : List String) : Option (InitKind Float) :=
 def initCall (k : InitKind Float) (shape : List Int) (raw : Option (List Float × List Float)) : Option (Out (Tensor Float)) :=
   match initFamily k with
   | .ok fam =>
-    (match fam, raw with
-     | .const _, _ => vRandom fam shape [] []
-     | _, some (us, zs) => vRandom fam shape us zs
-     | _, none => none)
+    -- without raw draws only the validation outcome can be computed (then `vRandom` is `some .err`)
+    let (us, zs) := raw.getD ([], [])
+    vRandom fam shape us zs
   | .err => some .err
   | .panic => some .panic
 
@@ -394,7 +393,6 @@ def exec (s : St) (dst : Option String) (cmd : String) (args : List String) : St
        | some d, ins :: outs :: opts =>
           (match parseI ins, parseI outs with
            | some i, some o =>
-              if i ≤ 0 ∨ o ≤ 0 then failBind s dst .err else
               -- resolve initializer options: none = key absent, some none = explicit nil entry
               let look (key : String) : Option (Option (Option (InitKind Float))) :=
                 match opts.find? (·.startsWith key) with
@@ -405,6 +403,7 @@ def exec (s : St) (dst : Option String) (cmd : String) (args : List String) : St
                     match s.get? v with | some (.init k) => some (some (some k)) | _ => none
               (match look "W=", look "B=" with
                | some wi, some bi =>
+                  if i ≤ 0 ∨ o ≤ 0 then failBind s dst .err else
                   (match wi, bi with
                    | some none, _ => failBind s dst .err
                    | _, some none => failBind s dst .err
